@@ -52,6 +52,10 @@ type Event struct {
 	XLog   uint64   `json:"xlogpos,omitempty"`
 	Inject []uint64 `json:"inject,omitempty"` // progress values put on the channel inside this receive
 	PClose bool     `json:"pclose,omitempty"` // progress channel closed inside this receive
+	// The connection dies silently at this message boundary: the fake connection still returns this
+	// event's result but reports IsClosed() from now on, so the (fake) manager reconnects - with
+	// START_REPLICATION at the LSN it is given - at the client's NEXT GetConnWithStartLsn / GetConn call.
+	Dies bool `json:"dies,omitempty"`
 	// Only in blocked cases and only on XLogData events that the client forwards (sanitize drops
 	// them elsewhere): the output channel is full when the client wants to hand this message over
 	// and stays full until the client has served len(Blocked) ticks; Blocked[i] = the progress
@@ -109,6 +113,7 @@ func (f *framing) reaches(e Event) bool {
 func sanitize(c *Case) {
 	f := newFraming()
 	c.First.Blocked, c.First.BlockedClose = nil, false
+	c.First.Dies = false // the prologue's receive is not an iteration of the model
 	for i := range c.Events {
 		e := &c.Events[i]
 		r := f.reaches(*e)
@@ -361,6 +366,9 @@ func (c *fakeConn) ReceiveMessage(ctx context.Context) (pgproto3.BackendMessage,
 		}
 		w.blk = &blockState{batches: e.Blocked, closeLast: e.BlockedClose}
 		w.inject(e.Blocked[0], e.BlockedClose && len(e.Blocked) == 1)
+	}
+	if e.Dies {
+		c.closed = true // this result is still delivered; the manager finds the connection closed at its next call
 	}
 	switch e.Kind {
 	case "xlog":
@@ -680,7 +688,7 @@ func caseGallina(c Case, log []Obs) (string, inferStats) {
 				st.failedLoops++
 			}
 		}
-		its[i] = fmt.Sprintf("mkIter %s %s %s %s %s %s %s", core.GBool(tick), nlist(p1), core.GBool(c1), evGallina(e), nlist(p2), core.GBool(c2), blockedList(ticks))
+		its[i] = fmt.Sprintf("mkIter %s %s %s %s %s %s %s %s", core.GBool(tick), nlist(p1), core.GBool(c1), evGallina(e), nlist(p2), core.GBool(c2), blockedList(ticks), core.GBool(e.Dies))
 		headSends = head
 	}
 	obs := []string{}
@@ -774,7 +782,9 @@ func monitor(c Case, log []Obs) []core.Violation {
 			k++
 			if k < len(script) {
 				e := script[k]
-				if e.Kind == "other-err" || e.Kind == "unexpected" || (e.Kind == "keepalive-bad" && k > 0) {
+				// (an error result of a connection that died at this boundary reports IsClosed(): for the
+				// client that is "connection was closed, continue", exactly like closed-err)
+				if (e.Kind == "other-err" && !e.Dies) || e.Kind == "unexpected" || (e.Kind == "keepalive-bad" && k > 0) {
 					fatalSeen, fatalAt = e.Kind, k
 				}
 				register(e.Inject, e.PClose)
@@ -1032,6 +1042,22 @@ func genPgLike(rng *rand.Rand) Case {
 		c.Events = append(c.Events, m)
 		noise()
 	}
+	// the same, but about one message in ten (at most 3 per case) is the last one of its connection:
+	// the connection dies silently right after delivering it.  The caller then restarts the stream
+	// as PostgreSQL does after a reconnect (from the BEGIN of the first transaction not yet received
+	// completely).
+	deaths := 3
+	emitMayDie := func(m Event) (died bool) {
+		if deaths > 0 && rng.Intn(10) == 0 {
+			deaths--
+			m.Dies = true
+			inject(&m)
+			c.Events = append(c.Events, m)
+			return true
+		}
+		emit(m)
+		return false
+	}
 	for next < len(txns) {
 	conn:
 		for j := next; j < len(txns); j++ {
@@ -1047,8 +1073,11 @@ func genPgLike(rng *rand.Rand) Case {
 				sawCommit, first = false, true
 				break conn
 			}
-			emit(Event{Kind: "xlog", X: "begin", Txn: t.id, Wal: t.begin})
+			diedAtBegin := emitMayDie(Event{Kind: "xlog", X: "begin", Txn: t.id, Wal: t.begin})
 			sawCommit, first = false, false
+			if diedAtBegin {
+				break conn
+			}
 			broke := false
 			for _, w := range t.changes {
 				if faults > 0 && rng.Intn(14) == 0 {
@@ -1057,7 +1086,10 @@ func genPgLike(rng *rand.Rand) Case {
 					broke = true
 					break
 				}
-				emit(Event{Kind: "xlog", X: "change", Op: []string{"INSERT", "UPDATE", "DELETE"}[rng.Intn(3)], Wal: w})
+				if emitMayDie(Event{Kind: "xlog", X: "change", Op: []string{"INSERT", "UPDATE", "DELETE"}[rng.Intn(3)], Wal: w}) {
+					broke = true
+					break
+				}
 			}
 			if broke {
 				break conn
@@ -1070,10 +1102,13 @@ func genPgLike(rng *rand.Rand) Case {
 				}
 				continue // the COMMIT is lost: the next BEGIN arrives instead
 			}
-			emit(Event{Kind: "xlog", X: "commit", Txn: t.id, Wal: t.commit})
+			diedAtCommit := emitMayDie(Event{Kind: "xlog", X: "commit", Txn: t.id, Wal: t.commit})
 			sawCommit = true
 			acked = append(acked, t.commit)
 			next = j + 1
+			if diedAtCommit {
+				break conn
+			}
 		}
 		if faults == 0 && next < len(txns) {
 			// no fault budget left: the remaining transactions arrive cleanly (after the pending redelivery)
@@ -1155,6 +1190,9 @@ func genSoup(rng *rand.Rand) Case {
 		if rng.Intn(60) == 0 {
 			e.PClose = true
 		}
+		if rng.Intn(10) == 0 {
+			e.Dies = true
+		}
 		c.Events = append(c.Events, e)
 	}
 	if rapid {
@@ -1199,6 +1237,11 @@ func makeBlocked(rng *rand.Rand, c *Case) {
 				e.Blocked = append(e.Blocked, batch)
 			}
 			e.BlockedClose = rng.Intn(10) == 0
+			if e.X == "commit" && rng.Intn(3) == 0 {
+				// the interesting boundary: the connection dies while this COMMIT is held (PostgreSQL
+				// then resumes after it, which is what the script goes on with)
+				e.Dies = true
+			}
 		}
 		if e.Kind == "xlog" && e.X == "commit" {
 			commits = append(commits, e.Wal)
@@ -1262,7 +1305,7 @@ func init() {
 		for i := range cases {
 			sanitize(&cases[i])
 		}
-		rep.Rule = "25% of the generated cases are BLOCKED cases: 2-slot output channel, real 20 ms progress ticker, no reply-requested keepalives; on up to 3 forwarded XLogData events the fake keeps the output channel full for 1-3 ticks with scripted progress values per tick (1 in 10 closes the progress channel with the last batch); ticks that the real ticker additionally delivers at loop heads / in other WriteLoops are read off the implementation's log (i_tick, i_blocked), the model must reproduce the whole log. Otherwise: corpus first, then seeded scripts for a fake connection manager/connection: 60% PostgreSQL-like streams (1-6 transactions, disconnects and lost COMMITs with redelivery, keepalives, timeouts, nil/short/other messages, progress values injected increasing/repeated/decreasing/in bursts), 40% adversarial soup incl. error responses anywhere, closed progress channel, rapid reply requests, unparsable payloads, bad first message. Non-trivial: >= 1 reconnect or recovery or >= 2 acknowledgements; distinct by event-kind sequence."
+		rep.Rule = "about 10% of the events that leave the client running carry DIES: the fake connection delivers that result and reports closed from then on, the fake manager reconnects (START_REPLICATION at the LSN given) at the client's next connection request - next loop head, second handleProgress, or a tick of the blocked-output loop (one held COMMIT in three of the blocked cases dies); PostgreSQL-like streams restart from the first incomplete transaction after a death. 25% of the generated cases are BLOCKED cases: 2-slot output channel, real 20 ms progress ticker, no reply-requested keepalives; on up to 3 forwarded XLogData events the fake keeps the output channel full for 1-3 ticks with scripted progress values per tick (1 in 10 closes the progress channel with the last batch); ticks that the real ticker additionally delivers at loop heads / in other WriteLoops are read off the implementation's log (i_tick, i_blocked), the model must reproduce the whole log. Otherwise: corpus first, then seeded scripts for a fake connection manager/connection: 60% PostgreSQL-like streams (1-6 transactions, disconnects and lost COMMITs with redelivery, keepalives, timeouts, nil/short/other messages, progress values injected increasing/repeated/decreasing/in bursts), 40% adversarial soup incl. error responses anywhere, closed progress channel, rapid reply requests, unparsable payloads, bad first message. Non-trivial: >= 1 reconnect or recovery or >= 2 acknowledgements; distinct by event-kind sequence."
 		var sb strings.Builder
 		sb.WriteString("From Bifrost.model Require Import Base Client.\nDefinition cases : list ccase := [\n")
 		seen := map[string]bool{}
@@ -1307,6 +1350,13 @@ func init() {
 				sig += e.Kind[:2] + e.X + fmt.Sprint(len(e.Inject))
 				if len(e.Blocked) > 0 {
 					sig += fmt.Sprintf("b%d%v", len(e.Blocked), e.BlockedClose)
+				}
+				if e.Dies {
+					sig += "d"
+					core.Bump(rep, "dies:"+e.Kind+e.X)
+					if len(e.Blocked) > 0 {
+						core.Bump(rep, "dies:while-message-held-in-blocked-loop")
+					}
 				}
 			}
 			fresh, sends := 0, 0
